@@ -81,9 +81,11 @@ Record hres := mkRes { h_class : hclass; h_rev : N (* response header revision; 
 
 (* revision allocator, tso.go: (dealRevision, committedRevision) *)
 Record leader := mkL { deal : N; committed : N }.
-(* tso.Commit(v) = Backend.SetCurrentRevision(v): committed := v; deal raised to v if lower *)
+(* tso.Commit(v) = Backend.SetCurrentRevision(v): both counters only move forward — the committed
+   revision is raised to v by a compare-and-swap loop, the dealt counter is raised to v if it is lower.
+   (Before the repair of finding C15-F2 the committed revision was a plain store.) *)
 Definition set_current (l : leader) (v : N) : leader :=
-  mkL (if deal l <? v then v else deal l) v.
+  mkL (if deal l <? v then v else deal l) (if committed l <? v then v else committed l).
 
 Record opout15 := mkO15 { d_store : dstore; d_res : hres; d_commit : bool (* an engine batch was committed *) }.
 
